@@ -279,4 +279,89 @@ inductive Merge : (Nat → List Msg) → List Msg → Prop
   | cons {qs m q} (w : Nat) (rest : List Msg) :
       qs w = m :: rest → Merge (fun k => if k = w then rest else qs k) q → Merge qs (m :: q)
 
+/-! #### the process runner with the forwarded reports: `MRunner` + `MReporter` as one transition system
+
+`FSys` = the run model's state + the result queue *as it really is*: the workers' forwarded `execute_task` reports
+and their results, in FIFO order (`Sys.resQ` is its projection to the results).  A worker that picks up a task puts
+`rep n` (the `MReporter` call inside `Runner.execute_task`) before it starts the action; when the action ends it puts
+`res n`.  The main process (`MRunner.run_tasks`) can only take the HEAD of the queue: a forwarded report is handed to
+the real reporter (`deliver`: `getattr(self.reporter, result['reporter'])(task); continue`), a result goes to
+`process_task_result` (`main` at `pTop`).  After the workers are joined the remaining reports are delivered before
+`finish()`. -/
+
+structure FSys where
+  base : Sys
+  fq : List Msg
+
+inductive FChoice
+  | main (perm : List Name)
+  | take (w : Nat)
+  | done (w : Nat)
+  | deliver
+deriving Repr
+
+/-- the main process is at `result_q.get()` inside `while proc_count` -/
+def atGet (s : Sys) : Prop := s.rpc = .pTop ∧ s.procCount ≠ 0
+instance (s : Sys) : Decidable (atGet s) := by unfold atGet; exact inferInstance
+
+/-- the main process is draining the queue after the join (normal end of `run_tasks`) -/
+def atDrain (s : Sys) : Prop := s.rpc = .fin ∧ s.halt = .none
+instance (s : Sys) : Decidable (atDrain s) := by unfold atDrain; exact inferInstance
+
+def fstep (inp : RunInput) (f : FSys) : FChoice → Option FSys
+  | .take w =>
+    match takeStep inp f.base w with
+    | none => none
+    | some s' =>
+      match f.base.jobQ with
+      | .task n :: _ => some ⟨s', f.fq ++ [.rep n]⟩
+      | _ => some ⟨s', f.fq⟩
+  | .done w =>
+    match f.base.workers w with
+    | .running n => (doneStep f.base w).map fun s' => ⟨s', f.fq ++ [.res n]⟩
+    | _ => none
+  | .deliver =>
+    if atGet f.base ∨ atDrain f.base then
+      match f.fq with
+      | .rep n :: q => some ⟨{ f.base with events := Ev.execute n :: f.base.events }, q⟩
+      | _ => none
+    else none
+  | .main perm =>
+    if atGet f.base then
+      match f.fq with
+      | .res _ :: q => (mainStep inp f.base perm).map fun s' => ⟨s', q⟩
+      | _ => none
+    else if atDrain f.base then
+      match f.fq with
+      | [] => (mainStep inp f.base perm).map fun s' => ⟨s', []⟩
+      | _ => none
+    else (mainStep inp f.base perm).map fun s' => ⟨s', f.fq⟩
+
+def finit (inp : RunInput) : FSys := ⟨init inp, []⟩
+
+/-- reachable states of the process runner with forwarded reports -/
+inductive FReach (inp : RunInput) : FSys → Prop
+  | init : FReach inp (finit inp)
+  | next {f f' c} : FReach inp f → fstep inp f c = some f' → FReach inp f'
+
+/-- the first enabled choice of a list -/
+def ftry (inp : RunInput) (f : FSys) : List FChoice → Option FSys
+  | [] => none
+  | c :: cs => match fstep inp f c with
+    | some f' => some f'
+    | none => ftry inp f cs
+
+/-- a default schedule for examples: main process first, then deliveries, then pick-ups, then completions
+    (highest worker first, so that results overtake each other) -/
+def fauto (inp : RunInput) : Nat → FSys → FSys
+  | 0, f => f
+  | k + 1, f =>
+    match ftry inp f [.main (defaultPerm f.base), .deliver, .take 0, .take 1, .take 2, .done 2, .done 1, .done 0] with
+    | some f' => fauto inp k f'
+    | none => f
+
+def Msg.resName : Msg → Option Name
+  | .res n => some n
+  | .rep _ => none
+
 end DoitModel.Report
